@@ -73,6 +73,123 @@ def run_cases(rep, pid, cases, ncfg, procs=16):
             rep.mismatch(key, msg, {"case": c, "kind": kind, "message": msg})
 
 
+def _hist_values():
+    import numpy as np
+    from harness.sclasses import Inner, Root
+    return {1: lambda: Root(a=1, b=[1, "x", 2.5], n=np.arange(3), child=Inner(x=(1, 2))),
+            2: lambda: Root(a="two", c={"k": 2.5, "m": [3]}, n=np.arange(4) * 2.0)}
+
+
+def _same_simple(got, want):
+    import numpy as np
+    if type(got) is not type(want):
+        return False
+    if hasattr(want, "__dict__") and not isinstance(want, np.ndarray):
+        a = {k: v for k, v in vars(got).items() if not k.startswith("_autoserialize")}
+        b = {k: v for k, v in vars(want).items() if not k.startswith("_autoserialize")}
+        return set(a) == set(b) and all(_same_simple(a[k], b[k]) for k in b)
+    if isinstance(want, np.ndarray):
+        return got.dtype == want.dtype and got.shape == want.shape and np.array_equal(got, want)
+    if isinstance(want, dict):
+        return set(got) == set(want) and all(_same_simple(got[k], want[k]) for k in want)
+    if isinstance(want, (list, tuple)):
+        return len(got) == len(want) and all(_same_simple(x, y) for x, y in zip(got, want))
+    return got == want
+
+
+def history_case(arg):
+    """SerializerHistory.tla: saves and loads of two objects on one path, spelled as str or pathlib.Path."""
+    import contextlib
+    import io
+    import pathlib
+    import shutil
+    import tempfile
+    import warnings
+    hist, idx = arg
+    warnings.filterwarnings("ignore")
+    from harness.zarr_util import reset_after_fork
+    from quantem.core.io.serialize import load
+    reset_after_fork()
+    out = []
+    store = ("zip", "dir")[idx % 2]
+    tmp = tempfile.mkdtemp(prefix="c01h_")
+    vals = _hist_values()
+    try:
+        base = os.path.join(tmp, "t.zip" if store == "zip" else "t")
+        for k, ev in enumerate(hist):
+            tgt = pathlib.Path(base) if ev["sp"] == "Path" else base
+            tag = f"[{store} event {k}: {ev['op']} {'v%d ' % ev['v'] if ev['op'] == 'save' else ''}{ev['sp']} {ev['mode']}]"
+            raised, got = None, None
+            try:
+                with contextlib.redirect_stdout(io.StringIO()):
+                    if ev["op"] == "save":
+                        vals[ev["v"]]().save(tgt, mode=ev["mode"], store=store)
+                    else:
+                        got = load(tgt)
+            except Exception as ex:  # noqa: BLE001
+                raised = ex
+            if bool(ev["ok"]) != (raised is None):
+                out.append(("history:error", f"{tag} model ok={ev['ok']}, real {'raised ' + type(raised).__name__ if raised else 'returned'}"))
+                break
+            if ev["op"] == "save" and not ev["ok"] and not isinstance(raised, FileExistsError):
+                out.append(("history:error", f"{tag} expected FileExistsError, got {type(raised).__name__}"))
+                break
+            if ev["op"] == "load" and ev["ok"] and not _same_simple(got, vals[ev["ret"]]()):
+                out.append(("history:stale-load", f"{tag} load does not return the object of the last successful save (v{ev['ret']}): "
+                            f"got attributes {sorted(k for k in vars(got) if not k.startswith('_autoserialize'))}"))
+                break
+    finally:
+        shutil.rmtree(tmp, ignore_errors=True)
+    return out
+
+
+def history_check(rep, quick, seed):
+    from harness.common import tlc
+    spec = os.path.join(tlc.SPECS, "serializer")
+    r = tlc.run_tlc("SerializerHistory", "HistoryMC.cfg", spec_dir=spec, workers=8, timeout=600)
+    rep.add_tlc(r, "SerializerHistory: LoadReturnsLastSaved / WriteOnce (histories of 5 calls)")
+    tlc.expect_clean(r, "HistoryMC")
+    rn = tlc.run_tlc("SerializerHistory", "HistoryNEG.cfg", spec_dir=spec, workers=8, timeout=600)
+    tlc.expect_violation(rn, "HistoryNEG (cache keyed by the path spelling)", "LoadReturnsLastSaved")
+    g = tlc.run_tlc("SerializerHistory", "HistoryGEN.cfg", spec_dir=spec, workers=1, timeout=900)
+    tlc.expect_clean(g, "HistoryGEN")
+    hists = g.cases
+    if not hists:
+        raise MachineryError("no histories exported")
+    total = len(hists)
+    random.Random(seed).shuffle(hists)
+
+    def overwritten_between_loads(h):
+        """a load, then a successful save of ANOTHER object, then a load again: the histories in which a stale
+        answer could show (by spelling of the two loads)."""
+        for i, e in enumerate(h):
+            if e["op"] == "load" and e["ok"]:
+                for j in range(i + 1, len(h)):
+                    if h[j]["op"] == "save" and h[j]["ok"] and h[j]["v"] != e["ret"]:
+                        for k in range(j + 1, len(h)):
+                            if h[k]["op"] == "load":
+                                return (e["sp"], h[j]["sp"], h[j]["mode"], h[k]["sp"])
+        return None
+    if quick:
+        seen, first, rest = {}, [], []
+        for h in hists:
+            key = overwritten_between_loads(h)
+            if key is not None and seen.get(key, 0) < 12:
+                seen[key] = seen.get(key, 0) + 1
+                first.append(h)
+            else:
+                rest.append(h)
+        hists = first + rest[: max(0, 400 - len(first))]
+    rep.note("histories", {"enumerated": total, "replayed": len(hists)})
+    res = pmap(history_case, [(h, i) for i, h in enumerate(hists)], procs=16, chunk=16)
+    for h, probs in zip(hists, res):
+        rep.add_traces(1)
+        rep.add_eval(len(h))
+        rep.add_distinct([(e["op"], e["v"], e["sp"], e["mode"]) for e in h])
+        for kind, msg in probs:
+            rep.mismatch(f"C01:{kind}", msg, {"history": h, "message": msg})
+
+
 def check(rep, tier, seed):
     quick = tier == "quick"
     rep.assume("attribute names / dict keys are free of '/' and of the reserved metadata names",
@@ -97,16 +214,23 @@ def check(rep, tier, seed):
     rep.sample({"abstract_case": cases[0]["o"], "expected": cases[0]["expect"]})
     rep.sample({"abstract_case": cases[len(cases) // 2]["o"]})
     run_cases(rep, "C01", cases, 2 if quick else 3)
+    history_check(rep, quick, seed)
     rule = ("object graphs are the initial states of SerializerMC exported by TLC; each is "
             "instantiated with concrete payloads (dtype/shape variants by case index), saved and "
             "loaded under 2-3 store/compression/path-type/mode configurations, re-saved and "
-            "re-loaded, and compared with the model's Load(Save(g)); distinct by abstract graph")
+            "re-loaded, and compared with the model's Load(Save(g)); plus histories of SerializerHistory.tla (4 saves / "
+            "loads of two objects on one path, str / Path spelling, both modes, both stores); distinct by abstract graph / history")
     return rule, not quick
 
 
 def replay(path):
     from harness.serial_run import run_case
     body = json.load(open(path))
+    if "history" in body["replay"]:
+        out = history_case((body["replay"]["history"], 0)) + history_case((body["replay"]["history"], 1))
+        for o in out:
+            print(o)
+        return 1 if out else 0
     out = run_case((body["replay"]["case"], 0, 4))
     print(json.dumps(body["replay"]["case"]["o"])[:800])
     for o in out:
